@@ -12,7 +12,7 @@ Record ecfg := {
   prune_on_cut : bool;
   memo_cap : nat;             (* int(max(1.0, perlinememos) * linecount) *)
   parseinfo : bool;
-  keywords : list str;        (* already normalised (upper-cased under ignorecase) *)
+  keywords : list str;        (* as declared; both sides are upper-cased at the check under ignorecase *)
 }.
 
 (* semantic actions: an oracle, a pure function of (rule, ast) *)
@@ -56,7 +56,7 @@ Definition clear_guards (m : table) : table := filter (fun e => negb (is_guard (
 Record gstate := {
   memos : table;
   results : table;      (* seeds: ParserCore._results, unbounded *)
-  nbody : list nat;     (* log: rules whose body ran to success and whose action was invoked, most recent first *)
+  nbody : list nat;     (* log: rules whose semantic action was invoked (after a successful body), most recent first *)
 }.
 
 Definition gstate0 : gstate := {| memos := []; results := []; nbody := [] |}.
@@ -88,7 +88,8 @@ Definition get_rule (r : nat) : option rule := nth_error rules r.
 (* validate_is_not_keyword: str(node) is compared; only strings can equal a keyword *)
 Definition is_keyword (node : value) : bool :=
   match node with
-  | VStr s => mem_str (if ignorecase ic then map upper s else s) (keywords ec)
+  | VStr s => if ignorecase ic then mem_str (map upper s) (map (map upper) (keywords ec))
+              else mem_str s (keywords ec)
   | _ => false
   end.
 
@@ -114,7 +115,7 @@ Definition post_body (rl : rule) (r : nat) (p : nat) (fb : frame) : rres * bool 
   if r_isname rl && is_keyword node then (RFail, false)
   else
     match act r node with
-    | ANone => (ROk (with_parseinfo node r p (pos fb)) (pos fb), true)
+    | ANone => (ROk (with_parseinfo node r p (pos fb)) (pos fb), false)
     | ARet v => (ROk (with_parseinfo v r p (pos fb)) (pos fb), true)
     | AFailed => (RFail, true)
     | ARaise x => (RFatal (Foreign x), true)
